@@ -82,5 +82,26 @@ theorem loaderSwitch_expected : loaderSwitch = [
   ("default", "fl.removeTmpFile(filepath.Join(dir, itemName))")
 ] := by rfl
 
+/-! ### the loop of procCompactLog over the log directory, as structure -/
+
+theorem procCompactLog_loopOver_expected : procCompactLog_loopOver = "dirs" := by rfl
+
+/-- a dirty (torn / empty) log is skipped and the loop goes on with the next log. -/
+theorem procCompactLog_onDirty_expected : procCompactLog_onDirty = "continue" := by rfl
+
+theorem procCompactLog_onOtherErr_expected : procCompactLog_onOtherErr = "return err" := by rfl
+
+/-- an error of processLog ("invalid compact log") is logged; the log is removed all the same. -/
+theorem procCompactLog_onProcessErr_expected : procCompactLog_onProcessErr = "fallthrough" := by rfl
+
+theorem procCompactLog_removesLogAfterProcess_expected : procCompactLog_removesLogAfterProcess = true := by rfl
+
+theorem procCompactLog_lastStmt_expected : procCompactLog_lastStmt = "return nil" := by rfl
+
+theorem dirtyLogSkipped_expected : dirtyLogSkipped = true := by rfl
+
+theorem recoverFile_onDirty_expected : recoverFile_onDirty = "fallthrough" := by rfl
+
+theorem recoverFile_onOtherErr_expected : recoverFile_onOtherErr = "return err" := by rfl
 
 end OG.C03.Facts
